@@ -632,17 +632,18 @@ theorem C01_never_raises_partial (o : Oracle) (m : Mode) (env : Nat → V) (henv
 
 /-! ### the side conditions hold for the typed use of the built-in predicates -/
 
-/-- item-count and uniqueness predicates never raise on a list -/
+/-- item-count predicates never raise on a list.  (`UniqueItems` is not in this fragment: with a signalling Decimal NaN
+    inside the items its comparisons raise `InvalidOperation` - finding D30.) -/
 theorem listPreds_noRaise (ps : List Pred) (oid : Nat) (xs : List PyVal)
     (h : ∀ p ∈ ps, (∃ n, p.k = .minItems n) ∨ (∃ n, p.k = .maxItems n) ∨ (∃ n, p.k = .exactItemCount n) ∨
-      p.k = .uniqueItems ∨ ∃ f, p.k = .user f) : NoRaise ps (.list oid xs) := by
+      ∃ f, p.k = .user f) : NoRaise ps (.list oid xs) := by
   intro p hp
-  rcases h p hp with ⟨n, hn⟩ | ⟨n, hn⟩ | ⟨n, hn⟩ | hn | ⟨f, hn⟩ <;> rw [hn] <;> exact ⟨_, rfl⟩
+  rcases h p hp with ⟨n, hn⟩ | ⟨n, hn⟩ | ⟨n, hn⟩ | ⟨f, hn⟩ <;> rw [hn] <;> exact ⟨_, rfl⟩
 
-/-- a list validator without coercer and async predicates, with item-count / uniqueness predicates -/
+/-- a list validator without coercer and async predicates, with item-count predicates -/
 theorem Safe_list_typed (o : Oracle) (m : Mode) (vid : Nat) (item : V) (ps : List Pred)
     (h : ∀ p ∈ ps, (∃ n, p.k = .minItems n) ∨ (∃ n, p.k = .maxItems n) ∨ (∃ n, p.k = .exactItemCount n) ∨
-      p.k = .uniqueItems ∨ ∃ f, p.k = .user f) (hi : Safe o m item) : Safe o m (.list vid item ps [] none) := by
+      ∃ f, p.k = .user f) (hi : Safe o m item) : Safe o m (.list vid item ps [] none) := by
   refine Safe.list vid item ps [] none (fun _ => rfl) ?_ hi
   intro x y t hg
   simp only [gate] at hg
